@@ -107,7 +107,7 @@ func jobs(tier string) []driver.Job {
 					if th {
 						// one more schedule deviation (and a second fault) for the scenarios in which goroutines
 						// really meet: Concurrency 2, empty destination; the others as in the quick tier plus F2.D0
-						main := conc == 2 && len(prep) == 0
+						main := conc == 2 && len(prep) == 0 && !strings.HasPrefix(api, "graph-mount")
 						switch {
 						case main && len(d.Nodes) <= 5:
 							out = append(out, mkJob(s, explore.Bounds{Fault: 1, Dev: 2}, 8)...)
